@@ -54,7 +54,8 @@ def run(res, a):
     if exe_rel is None or exe_sec is None:
         return
     k = 3 if big else 1
-    plan = [("span", 3 * k, 300), ("fillfree", 2 * k, 400), ("realloc", 2 * k, 250), ("aligned", 2 * k, 250), ("heaps", 2 * k, 250), ("huge", 1 * k, 30), ("boundary", 1 * k, 250)]
+    plan = [("span", 3 * k, 300), ("fillfree", 2 * k, 400), ("realloc", 2 * k, 250), ("aligned", 2 * k, 250), ("heaps", 2 * k, 250), ("huge", 2 * k, 30),
+            ("hugechurn", 4 * k, 50), ("boundary", 1 * k, 250)]
     for ci, c in enumerate(cfgs):
         opts = [(idx[n], (v if v >= 0 else (1 << 64) + v)) for n, v in sorted(c.items()) if n in idx]
         exe = exe_sec if ci % 2 == 0 else exe_rel
